@@ -113,14 +113,19 @@ void e1_free(fs_run *R)
     sp_destroy(&R->S); dn_destroy(&R->D);
 }
 
+/* Companion of G for gradual underflow: every stored entry of L and U and every partial sum may be off by one subnormal spacing eta (an ABSOLUTE error, which the
+   relative model behind G = |L||U| does not cover), so (L U)_ij is uncertain by eta * W_ij with W_ij = sum_k (|L_ik| + |U_kj|) + n.  Kept for the o_residual call
+   that follows build_G. */
+static dmat g_uw; static int g_uw_valid = 0;
 void build_G(const dmat *Ld, const dmat *Ud, const int *perm_r, const int *perm_c, int transposed, dmat *G)
 {
     int n = Ud->n, m = Ld->m;
     memset(G, 0, sizeof *G); G->m = transposed ? n : m; G->n = transposed ? m : n;
+    memset(&g_uw, 0, sizeof g_uw); g_uw.m = G->m; g_uw.n = G->n; g_uw_valid = 1;
     for (int i = 0; i < m; i++) for (int j = 0; j < n; j++) {
-        int pi = perm_r[i], pj = perm_c[j]; xr s = 0;
-        for (int k = 0; k <= pi && k <= pj && k < n; k++) s += cabsl(DM(Ld, pi, k)) * cabsl(DM(Ud, k, pj));
-        if (transposed) DM(G, j, i) = s; else DM(G, i, j) = s;
+        int pi = perm_r[i], pj = perm_c[j]; xr s = 0, w = n;
+        for (int k = 0; k <= pi && k <= pj && k < n; k++) { s += cabsl(DM(Ld, pi, k)) * cabsl(DM(Ud, k, pj)); w += cabsl(DM(Ld, pi, k)) + cabsl(DM(Ud, k, pj)); }
+        if (transposed) { DM(G, j, i) = s; DM(&g_uw, j, i) = w; } else { DM(G, i, j) = s; DM(&g_uw, i, j) = w; }
     }
 }
 
@@ -140,14 +145,17 @@ int o_residual(const vf_type *T, const dmat *A, int trans, const dmat *G, const 
             continue;   /* overflow of a legitimately huge solution: outside what the bound can express */
         }
         for (int i = 0; i < n; i++) {
-            xc s = DM(B, i, c); xr gx = 0, arow = 0;
+            xc s = DM(B, i, c); xr gx = 0, arow = 0, ux = 0;
             for (int j = 0; j < n; j++) {
                 xc a = trans ? DM(A, j, i) : DM(A, i, j); if (trans == 2) a = conjl(a);
                 s -= a * DM(X, j, c); arow += cabsl(a);
                 gx += (trans ? DM(G, j, i) : DM(G, i, j)) * cabsl(DM(X, j, c));
+                if (g_uw_valid && g_uw.m == G->m && g_uw.n == G->n) ux += creall(trans ? DM(&g_uw, j, i) : DM(&g_uw, i, j)) * cabsl(DM(X, j, c));
             }
+            xr eta = (xr)T->sfmin * (xr)T->eps * 2;      /* subnormal spacing of the working precision */
             xr err = cabsl(s), allow = (xr)cc * n * T->eps * creall(gx) + (xr)n * T->eps * cabsl(DM(B, i, c))
-                                     + (xr)cc * n * T->sfmin * (1 + arow);   /* gradual underflow: each operation may add an absolute error below sfmin */
+                                     + (xr)cc * n * T->sfmin * (1 + arow)    /* gradual underflow: each operation may add an absolute error below sfmin */
+                                     + (xr)cc * n * eta * ux;                /* ... and an absolute error of one subnormal spacing in a factor entry is multiplied by |x| */
             if (err > allow || err != err) {
                 *ratio = allow > 0 ? (double)(err / allow) : INFINITY;
                 return wk_fail(r, "residual", "|b - op(A)x|[%d] of rhs %d = %Lg exceeds %g*n*eps*(|L||U||x|) + n*eps*|b| = %Lg", i, c, err, cc, allow);
